@@ -1,11 +1,21 @@
 import ZCV.Lemmas.Url
+import ZCV.Lemmas.UrlPathDir
 /-!
 # C18 — path, URL and file-object entry points reach the same resource (the URL algebra part)
 What the operating system does with a path (cwd, `abspath`, `urlopen`) is explored on real trees by the check and is
 not a theorem.
+
+The second half of the file is about the standard-library functions ZConfig builds its `file:` URLs with
+(`ZCV.UrlPath`, a model of CPython 3.12 `urllib.parse.quote / unquote / urlsplit / urljoin / urldefrag` on POSIX):
+strings are lists of Unicode scalar values (everything but lone surrogates, on which `quote` raises), bytes are UTF-8.
+Not covered: Windows paths (`nturl2path`), `urlsplit`'s `ValueError`s (brackets in a network location), references
+with a query or with parameters, empty segments (`//`) in a reference that starts at the root; references to
+directories (ending in `/`, `.`, `..`) are covered for quoted relative references only (`C18_join_eq_resolve_any`).
 -/
 namespace ZCV.Props.C18
 open ZCV
+open ZCV.UrlPath (quote unquote pathToUrl urlToPath join zjoin defrag defragUrl defragFrag zdefragUrl tabCrLf)
+open ZCV.UrlPathSpec (segments resolve normalize render absDir relFileRef urlNeutral absFilePath normalFilePath namesFile)
 
 /-- the live `_pathsep_rx`, used as `isPath` uses it: a string is a file-system path unless a scheme of at least two
     characters precedes a colon at its start (one letter = a drive) — for every string -/
@@ -20,5 +30,180 @@ theorem C18_urlnormalize_idempotent (u : Str) : Url.urlnormalize (Url.urlnormali
 /-- a URL already in normal form is returned unchanged -/
 theorem C18_urlnormalize_fixed (u : Str) (h : UrlSpec.normalForm u = true) : Url.urlnormalize u = u :=
   Url.urlnormalize_fixed u h
+
+/-! ## quoting -/
+
+/-- `unquote(quote(s)) == s` for every string: space, `%`, `#`, `?`, `;`, `[`, control characters, non-ASCII letters
+    (UTF-8 encoded and decoded) all come back -/
+theorem C18_unquote_quote (s : Str) : unquote (quote s) = s := UrlPath.up_unquote_quote s
+
+/-- the path `normalizeURL` turned into `"file://" + pathname2url(p)` is recovered exactly by `url2pathname(url[7:])`
+    — for every string `p`, not only absolute paths -/
+theorem C18_quote_roundtrip (p : Str) : urlToPath (pathToUrl p) = p := by
+  show unquote (quote p) = p
+  exact UrlPath.up_unquote_quote p
+
+example : pathToUrl "/tmp/my dir/é#%?;[.conf".toList = "file:///tmp/my%20dir/%C3%A9%23%25%3F%3B%5B.conf".toList := by
+  decide
+
+/-- different paths get different URLs -/
+theorem C18_pathToUrl_injective (p q : Str) (h : pathToUrl p = pathToUrl q) : p = q := by
+  rw [← C18_quote_roundtrip p, h, C18_quote_roundtrip]
+
+/-- for an absolute POSIX path `p`: the URL built from it is in `file:///` normal form, `urlnormalize` leaves it alone,
+    `isPath` says "URL" for it and "path" for `p` itself -/
+theorem C18_pathToUrl_normal (p : Str) (h : p.head? = some '/') :
+    UrlSpec.normalForm (pathToUrl p) = true ∧ Url.urlnormalize (pathToUrl p) = pathToUrl p ∧
+    Url.isPath (pathToUrl p) = false ∧ Url.isPath p = true :=
+  ⟨UrlPath.up_pathToUrl_normalForm p h, UrlPath.up_pathToUrl_urlnormalize p h, UrlPath.up_pathToUrl_not_isPath p,
+    UrlPath.up_isPath_abs p h⟩
+
+/-- any string (e.g. a relative path) with no colon before its first slash is taken for a path; a name like
+    `ab:c/d` is not (it is read as scheme `ab`) -/
+theorem C18_isPath_of_nocolon (p : Str) (h : ∀ c ∈ p.takeWhile (· != '/'), c ≠ ':') : Url.isPath p = true :=
+  UrlPath.up_isPath_of_nocolon p h
+
+example : ∀ c ∈ "my dir/x:y.conf".toList.takeWhile (· != '/'), c ≠ ':' := by decide
+
+/-! ## fragments -/
+
+/-- the URL built from a path never has a fragment: `urldefrag` returns it unchanged with an empty fragment, even when
+    the file name contains `#` (it is quoted as `%23`); whereas in any string the text after the first `#` is the
+    fragment (tab, CR, LF removed), so a URL carrying `#frag` has a non-empty one — what `normalizeURL` rejects -/
+theorem C18_quoted_has_no_fragment :
+    (∀ p : Str, defrag (pathToUrl p) = (pathToUrl p, [])) ∧
+    (∀ u frag : Str, '#' ∉ u → defragFrag (u ++ '#' :: frag) = frag.filter (fun c => !tabCrLf c)) ∧
+    (∀ u frag : Str, '#' ∉ u → (∃ c ∈ frag, tabCrLf c = false) → defragFrag (u ++ '#' :: frag) ≠ []) := by
+  refine ⟨UrlPath.up_defrag_pathToUrl, UrlPath.up_defrag_fragment, ?_⟩
+  intro u frag hu ⟨c, hc, hcs⟩ he
+  rw [UrlPath.up_defrag_fragment u frag hu] at he
+  have : c ∈ frag.filter (fun c => !tabCrLf c) := List.mem_filter.2 ⟨hc, by simp [hcs]⟩
+  rw [he] at this
+  simp at this
+
+example : defragFrag "file:///a/b.conf#sec".toList = "sec".toList := by decide
+example : defrag (pathToUrl "/a/b#sec".toList) = ("file:///a/b%23sec".toList, []) := by decide
+
+/-- **the entry points agree on the URL.**  `normalizeURL` applied to an absolute path `p` (the `isPath` branch:
+    `"file://" + pathname2url(p)`, then `ZConfig.url.urldefrag`) and applied to the `file:` URL of `p` (the URL branch:
+    `urldefrag` only) return the same URL, with no fragment to complain about; `_url_from_file` computes that same
+    `"file://" + pathname2url(p)` for an open file named `p`. -/
+theorem C18_entry_points_agree (p : Str) (h : p.head? = some '/') :
+    Url.isPath p = true ∧ Url.isPath (pathToUrl p) = false ∧
+    zdefragUrl (pathToUrl p) = pathToUrl p ∧ defragFrag (pathToUrl p) = [] := by
+  refine ⟨UrlPath.up_isPath_abs p h, UrlPath.up_pathToUrl_not_isPath p, ?_, ?_⟩
+  · unfold zdefragUrl defragUrl
+    rw [UrlPath.up_defrag_pathToUrl, UrlPath.up_znormalize_eq]
+    exact UrlPath.up_pathToUrl_urlnormalize p h
+  · unfold defragFrag
+    rw [UrlPath.up_defrag_pathToUrl]
+
+/-! ## joining = resolving against the containing directory -/
+
+/-- **joining is lexical resolution.**  Base: the URL of the file `dir/file` (`dir` absolute, `""` for the root; any
+    characters in the names).  Reference: any relative path to a file (`ref` does not start with `/`, its last
+    segment is not empty, `.` or `..`), quoted.  The file the joined URL names is `/` + the segments of `dir`
+    followed by those of `ref`, with `.` and empty segments skipped and `..` removing the segment before it (never
+    above the root) — `file` itself plays no role. -/
+theorem C18_join_eq_resolve (dir file ref : Str) (hd : absDir dir) (hf : '/' ∉ file) (hr : relFileRef ref) :
+    urlToPath (join (pathToUrl (dir ++ '/' :: file)) (quote ref)) =
+      render (resolve (segments dir) (segments ref)) :=
+  UrlPath.up_join_eq_resolve dir file ref hd hf hr
+
+example : absDir "/etc/my app".toList ∧ '/' ∉ "top#1.conf".toList ∧ relFileRef "../d/./e f%.conf".toList :=
+  ⟨Or.inr rfl, by decide, by decide, "e f%.conf".toList, by decide, by decide⟩
+example : render (resolve (segments "/etc/my app".toList) (segments "../d/./e f%.conf".toList)) =
+    "/etc/d/e f%.conf".toList := by decide
+example : render (resolve (segments "/a".toList) (segments "../../../x".toList)) = "/x".toList := by decide
+
+/-- the complete statement for relative references: every non-empty `ref` that does not start with `/`, also one that
+    names a directory (last segment empty, `.` or `..`) — then the result keeps a trailing slash (`/` alone for the
+    root).  (`ref = ""` returns the base itself.) -/
+theorem C18_join_eq_resolve_any (dir file ref : Str) (hd : absDir dir) (hf : '/' ∉ file) (hne : ref ≠ [])
+    (hrel : ref.head? ≠ some '/') :
+    urlToPath (join (pathToUrl (dir ++ '/' :: file)) (quote ref)) =
+      render (resolve (segments dir) (segments ref) ++ (if namesFile ref then [] else [[]])) :=
+  UrlPath.up_join_eq_resolve_any dir file ref hd hf hne hrel
+
+example : render (resolve (segments "/a/b".toList) (segments "c/..".toList) ++
+    (if namesFile "c/..".toList then [] else [[]])) = "/a/b/".toList := by decide
+example : render (resolve (segments "/a".toList) (segments "../..".toList) ++
+    (if namesFile "../..".toList then [] else [[]])) = "/".toList := by decide
+
+/-- the same for a reference used as written (what `%include`, `src=` and `extends=` do), provided it is made of
+    URL-neutral characters: no `%`, `#`, `?`, tab, CR, LF, no leading space or control character, no colon before the
+    first slash.  Spaces, `;`, `[`, `&`, `+`, `~`, non-ASCII letters are fine. -/
+theorem C18_join_raw_eq_resolve (dir file ref : Str) (hd : absDir dir) (hf : '/' ∉ file) (hr : relFileRef ref)
+    (hn : urlNeutral ref) :
+    urlToPath (join (pathToUrl (dir ++ '/' :: file)) ref) = render (resolve (segments dir) (segments ref)) :=
+  UrlPath.up_join_raw_eq_resolve dir file ref hd hf hr hn
+
+example : urlNeutral "../d é/e f;[&+~].conf".toList ∧ relFileRef "../d é/e f;[&+~].conf".toList :=
+  ⟨⟨by decide, by decide, by decide⟩, by decide, "e f;[&+~].conf".toList, by decide, by decide⟩
+
+/-- at URL level: the joined URL is exactly the URL `normalizeURL` builds from the resolved path (so it is again in
+    `file:///` normal form and nothing is quoted twice) -/
+theorem C18_join_is_pathToUrl (dir file ref : Str) (hd : absDir dir) (hf : '/' ∉ file) (hr : relFileRef ref) :
+    join (pathToUrl (dir ++ '/' :: file)) (quote ref) = pathToUrl (render (resolve (segments dir) (segments ref))) :=
+  UrlPath.up_join_is_pathToUrl dir file ref hd hf hr
+
+example : join "file:///a/b%20c/top.conf".toList "../d/e%20f.conf".toList = "file:///a/d/e%20f.conf".toList := by decide
+
+/-- `ZConfig.url.urljoin` (which repairs `file:/x` results) returns the same URL as `urllib`'s `urljoin` here -/
+theorem C18_zjoin_eq_join (dir file ref : Str) (hd : absDir dir) (hf : '/' ∉ file) (hr : relFileRef ref) :
+    zjoin (pathToUrl (dir ++ '/' :: file)) (quote ref) = join (pathToUrl (dir ++ '/' :: file)) (quote ref) := by
+  rw [C18_join_is_pathToUrl dir file ref hd hf hr]
+  exact UrlPath.up_zjoin_pathToUrl _ _ _ rfl (C18_join_is_pathToUrl dir file ref hd hf hr)
+
+/-- **a reference that starts at the root replaces the base.**  For an absolute path `q` to a file (no `//`, last
+    segment a name), given quoted or as a whole `file:///` URL, the result is the URL of `q` with its `.`/`..` worked
+    off — whatever the base; and it is the URL of `q` itself when `q` is in normal form. -/
+theorem C18_join_absolute (b q : Str) (hb : b.head? = some '/') (hq : absFilePath q) :
+    join (pathToUrl b) (quote q) = pathToUrl (render (normalize (segments q))) ∧
+    join (pathToUrl b) (pathToUrl q) = pathToUrl (render (normalize (segments q))) ∧
+    (normalFilePath q → join (pathToUrl b) (quote q) = pathToUrl q ∧ join (pathToUrl b) (pathToUrl q) = pathToUrl q) := by
+  refine ⟨UrlPath.up_join_absolute_path b q hb hq, UrlPath.up_join_absolute_url b q hb hq, ?_⟩
+  intro hn
+  rw [UrlPath.up_join_absolute_path b q hb hq, UrlPath.up_join_absolute_url b q hb hq, UrlPath.up_render_normal q hn]
+  exact ⟨rfl, rfl⟩
+
+example : absFilePath "/x/../y/z.conf".toList :=
+  ⟨["x".toList, "..".toList, "y".toList], "z.conf".toList, by decide, by decide, by decide⟩
+example : normalFilePath "/y/z w.conf".toList :=
+  ⟨["y".toList, "z w.conf".toList], by decide, by decide, by decide⟩
+example : render (normalize (segments "/x/../y/z.conf".toList)) = "/y/z.conf".toList := by decide
+
+/-- a path in normal form is an absolute path to a file -/
+theorem C18_normal_is_abs (q : Str) (h : normalFilePath q) : absFilePath q := UrlPath.up_normal_abs q h
+
+/-- **nested references resolve against the containing resource.**  When the resource reached through `r1` refers to
+    `r2`, the file named is `r2` resolved against the base directory followed by the directory part of `r1` (all
+    segments of `r1` but the last) -/
+theorem C18_join_nested (dir file r1 r2 : Str) (hd : absDir dir) (hf : '/' ∉ file) (hr1 : relFileRef r1)
+    (hr2 : relFileRef r2) :
+    urlToPath (join (join (pathToUrl (dir ++ '/' :: file)) (quote r1)) (quote r2)) =
+      render (resolve (segments dir ++ (segments r1).dropLast) (segments r2)) :=
+  UrlPath.up_join_nested dir file r1 r2 hd hf hr1 hr2
+
+example : render (resolve (segments "/etc/app".toList ++ (segments "inc/a.conf".toList).dropLast)
+    (segments "../lib/b.conf".toList)) = "/etc/app/lib/b.conf".toList := by decide
+
+/-- the same at URL level: the result is exactly the URL of that path -/
+theorem C18_join_nested_url (dir file r1 r2 : Str) (hd : absDir dir) (hf : '/' ∉ file) (hr1 : relFileRef r1)
+    (hr2 : relFileRef r2) :
+    join (join (pathToUrl (dir ++ '/' :: file)) (quote r1)) (quote r2) =
+      pathToUrl (render (resolve (segments dir ++ (segments r1).dropLast) (segments r2))) :=
+  UrlPath.up_join_nested_url dir file r1 r2 hd hf hr1 hr2
+
+/-- the same for references used as written (URL-neutral characters) -/
+theorem C18_join_nested_raw (dir file r1 r2 : Str) (hd : absDir dir) (hf : '/' ∉ file) (hr1 : relFileRef r1)
+    (hn1 : urlNeutral r1) (hr2 : relFileRef r2) (hn2 : urlNeutral r2) :
+    urlToPath (join (join (pathToUrl (dir ++ '/' :: file)) r1) r2) =
+      render (resolve (segments dir ++ (segments r1).dropLast) (segments r2)) :=
+  UrlPath.up_join_nested_raw dir file r1 r2 hd hf hr1 hn1 hr2 hn2
+
+/-- resolving in two steps = resolving the concatenation (the specification's own compositionality) -/
+theorem C18_resolve_compositional (a b c : List Str) : resolve (resolve a b) c = resolve (a ++ b) c :=
+  UrlPath.up_resolve_normalize (a ++ b) c
 
 end ZCV.Props.C18
